@@ -151,3 +151,37 @@ Fixpoint ctrace_firstbad (c : config) (s : cstate) (tr : list (clabel * Q * csna
            if near && step_matches c s2 e o then ctrace_firstbad c (with_target s2 (o_target o)) r (S i)
            else Some (i, s')
   end.
+
+(* ---------- the arithmetic as regenerated from the source ---------- *)
+(* gen/Gen_session.v carries, expression by expression, the arithmetic of data_received, _send_message,
+   _bump_errors, bump_cost, recalc_concurrency and the cost sleep of _throttled_request, translated from
+   the Python source on every run ([aexp]).  [aeval] gives them their meaning over exact rationals;
+   proof/CostProofs.v shows that they are the formulas the model above is built from. *)
+Fixpoint aeval (env : avar -> Q) (e : aexp) : Q :=
+  match e with
+  | AVar v => env v
+  | AConst q => q
+  | AAdd a b => aeval env a + aeval env b
+  | ASub a b => aeval env a - aeval env b
+  | AMul a b => aeval env a * aeval env b
+  | ADiv a b => aeval env a / aeval env b
+  | AMax a b => qmax (aeval env a) (aeval env b)
+  | AAbs a => qabs (aeval env a)
+  | ACeil a => inject_Z (Qceiling (aeval env a))
+  | AUnknown => 0
+  end.
+Fixpoint aknown (e : aexp) : bool :=
+  match e with
+  | AUnknown => false
+  | AVar _ | AConst _ => true
+  | AAdd a b | ASub a b | AMul a b | ADiv a b | AMax a b => aknown a && aknown b
+  | AAbs a | ACeil a => aknown a
+  end.
+(* the variables, given a configuration, a state and what the statement at hand is applied to *)
+Definition aenv (c : config) (s : cstate) (delta len exc extra evalcost : Q) (v : avar) : Q :=
+  match v with
+  | VBw => bw c | VCost => cost s | VCostLast => cost_last s | VCostSleep => cost_sleep c | VCostTime => cost_time s
+  | VDecay => decay c | VDelta => delta | VErrBase => error_base c | VEvalCost => evalcost | VExcCost => exc
+  | VExtra => extra | VFraction => fraction s | VHard => hard c | VInitial => inject_Z (initial c) | VLen => len
+  | VNow => now s | VSoft => soft c | VSoftRange => hard c - soft c
+  end.
